@@ -266,12 +266,12 @@ def header_event(inst, rng, prop="C03"):
         return ev
     ev["text"] = out.getvalue()[:4000]
     # what the formatter saw (the object after write()) and the lines it produced, for the algorithm-layer comparison
-    titles = {"~Well": "Well", "~Curve": "Curves", "~Params": "Parameter"}
+    titles = {"W": "Well", "C": "Curves", "P": "Parameter"}        # by section letter: the title text is not specified
     written = {}
     cur = None
     for ln in out.getvalue().split("\n"):
         if ln.startswith("~"):
-            cur = next((v for k, v in titles.items() if ln.startswith(k)), None)
+            cur = titles.get(ln[1:2].upper())
             if cur:
                 written[cur] = []
         elif cur:
@@ -283,7 +283,7 @@ def header_event(inst, rng, prop="C03"):
             continue
         ev["wsecs"].append({"name": n, "items": [{"o": codes(it.original_mnemonic), "u": codes(str(it.unit)), "v": codes(str(it.value)),
                                                   "d": codes(str(it.descr)), "up": it.original_mnemonic.upper()} for it in its]})
-        ev["wlines"].append([codes(x) for x in written[n]])
+        ev["wlines"].append([codes(x) for x in written.get(n, [])])
     for n, _ in names:
         s = back.sections[n]
         ev["obs"].append({"name": n, "items": [proj_item(it) for it in list.__iter__(s)
